@@ -109,8 +109,14 @@ type SchedPlan struct {
 	Expect   string           `json:"expect,omitempty"`                  // violation key this replay is expected to reproduce
 	Procs    int              `json:"gomaxprocs,omitempty"`              // GOMAXPROCS of the worker process (0: 1)
 	Aged     int              `json:"process_aged_with_calls,omitempty"` // the process ran engine.AgeProcess(seed, n) before the plan
-	Pick     uint64           `json:"pick,omitempty"`                    // != 0: the next task at a switch is drawn from this stream (round-robin otherwise)
-	SimProcs int              `json:"sim_procs,omitempty"`               // number of processors reported to the library (0: one)
+	// Slice: the seeded slice of plans the finding process had generated and
+	// executed in-process before this one (first index, stride, property flag); a
+	// second way to replay a finding that depends on what the process did before
+	SliceFrom   int    `json:"slice_from,omitempty"`
+	SliceStride int    `json:"slice_stride,omitempty"`
+	SliceK      int    `json:"slice_k,omitempty"`
+	Pick        uint64 `json:"pick,omitempty"`      // != 0: the next task at a switch is drawn from this stream (round-robin otherwise)
+	SimProcs    int    `json:"sim_procs,omitempty"` // number of processors reported to the library (0: one)
 	// RefOut: outcome classes of every op as measured by the (purely sequential)
 	// generating process; the executing process compares its own runs with them
 	RefOut [][]string `json:"ref_out,omitempty"`
